@@ -27,6 +27,8 @@ type Profile struct {
 	DepBodies   bool
 	Ext         bool
 	Odd         bool // schemas that are legal but unusual (no body, clashes, nested targetables)
+	NoSchema    bool    // path context without a schema
+	HalfTyped   float64 // probability that an any-expression is an unfinished piece of text (as left while typing)
 }
 
 type Gen struct {
